@@ -22,8 +22,6 @@ import asyncio
 import inspect
 
 TEXT_ORDER = ["MRP", "DMAP", "Companion", "AirPlay", "RAOP"]  # Protocol names the model is written for
-AIRPLAY_VIDEO_FEATURES = "0x1"   # SupportsAirPlayVideoV1: the PlayUrl gate of FacadeStream is open
-AIRPLAY_NO_VIDEO_FEATURES = "0x0"
 
 
 def lower_first(s):
@@ -39,7 +37,38 @@ class _SessionManager:
         return None
 
 
-async def _build(airplay_features):
+HAP_CREDENTIALS = ":".join(["aa" * 32, "bb" * 32, "cc" * 8, "dd" * 8])
+
+
+def default_spec(**kw):
+    """A device configuration: which services exist and what the AirPlay service advertises.
+
+    services           protocol names with a service in the configuration
+    companion_creds    the Companion service has credentials (companion.setup() yields nothing without)
+    video              AirPlay advertises SupportsAirPlayVideoV1 (PlayUrl gate of FacadeStream open)
+    tunnel             AirPlay service of an Apple TV (tvOS >= 13, HAP credentials): airplay.setup()
+                       also yields an MRP SetupData running over the AirPlay remote-control tunnel
+    unified            AirPlay advertises HasUnifiedAdvertiserInfo: airplay.setup() also yields RAOP
+                       when the configuration has no RAOP service
+    """
+    spec = {"services": list(TEXT_ORDER), "companion_creds": True, "video": True, "tunnel": False, "unified": False}
+    spec.update(kw)
+    return spec
+
+
+class Built:
+    """What `pyatv.connect` has in hand right before `atv.connect()`."""
+
+    def __init__(self, atv, queue, dispatcher, order):
+        self.atv = atv
+        self.queue = queue            # [(origin Protocol whose setup() yielded it, SetupData)] in add_protocol order
+        self.dispatcher = dispatcher  # the CoreStateDispatcher shared by facade and protocols
+        self.order = order
+
+
+async def _build(spec):
+    """The loop of pyatv.connect (pyatv/__init__.py:127-153) without the final atv.connect()."""
+    from functools import partial
     from ipaddress import IPv4Address
 
     from pyatv import conf
@@ -50,40 +79,71 @@ async def _build(airplay_features):
     from pyatv.settings import Settings
 
     config = conf.AppleTV(IPv4Address("127.0.0.1"), "verif")
-    for p in Protocol:
-        props = {"features": airplay_features} if p == Protocol.AirPlay else {}
-        # Companion.setup refuses to yield anything without credentials
-        cred = ("a" * 64 + ":" + "b" * 64 + ":" + "c" * 8 + ":" + "d" * 8) if p == Protocol.Companion else None
+    for name in spec["services"]:
+        p = Protocol[name]
+        props, cred = {}, None
+        if p == Protocol.AirPlay:
+            flags = (1 if spec["video"] else 0) | ((1 << 30) if spec["unified"] else 0)
+            props = {"features": hex(flags)}
+            if spec["tunnel"]:
+                props.update({"model": "AppleTV6,2", "osvers": "14.0"})
+                cred = HAP_CREDENTIALS
+        if p == Protocol.Companion and spec["companion_creds"]:
+            cred = HAP_CREDENTIALS
         config.add_service(MutableService("id-" + p.name, p, 1234, props, credentials=cred))
     settings = Settings()
     sm = _SessionManager()
     dispatcher = CoreStateDispatcher()
     atv = FacadeAppleTV(config, sm, dispatcher, settings)
-    setups = {}
-    from functools import partial
-
+    queue = []
     for proto, methods in PROTOCOLS.items():
+        service = config.get_service(proto)
+        if service is None or not service.enabled:
+            continue
         core = await create_core(
-            config, config.get_service(proto), settings=settings, device_listener=atv,
+            config, service, settings=settings, device_listener=atv,
             session_manager=sm, core_dispatcher=dispatcher,
             takeover_method=partial(atv.takeover, proto), loop=asyncio.get_running_loop())
-        own = [sd for sd in methods.setup(core) if sd.protocol == proto]
-        if len(own) != 1:
-            raise RuntimeError(f"{proto}: setup() yielded {len(own)} SetupData for its own protocol")
-        setups[proto] = own[0]
-    return atv, setups, list(PROTOCOLS.keys())
+        for sd in methods.setup(core):
+            queue.append((proto, sd))
+    return Built(atv, queue, dispatcher, list(PROTOCOLS.keys()))
 
 
-def build_world(loop=None, airplay_features=AIRPLAY_VIDEO_FEATURES):
-    """(facade, {Protocol: SetupData}, setup order).  The facade is NOT connected: callers
-    add the protocols they want (with `connect` replaced) and call `atv.connect()`."""
+def build_world(loop=None, spec=None):
+    """Set the protocols of a configuration up (no connection is made).  The facade is NOT
+    connected: callers add the SetupData they want (with `connect` replaced) and call
+    `atv.connect()`."""
+    spec = spec or default_spec()
     if loop is not None:
-        return loop.run_until_complete(_build(airplay_features))
+        return loop.run_until_complete(_build(spec))
     loop = asyncio.new_event_loop()
     try:
-        return loop.run_until_complete(_build(airplay_features))
+        return loop.run_until_complete(_build(spec))
     finally:
         loop.close()
+
+
+def native_setups(built):
+    """{Protocol: the SetupData its own setup() yielded for itself}"""
+    out = {}
+    for origin, sd in built.queue:
+        if origin == sd.protocol and origin not in out:
+            out[origin] = sd
+    return out
+
+
+# configurations whose set-up paths are extracted next to the native one (tie A, `setupPaths`)
+PATH_SPECS = [
+    ("native", default_spec()),
+    ("tunnel", default_spec(services=["AirPlay"], tunnel=True)),
+    ("tunnel+companion-service-without-credentials",
+     default_spec(services=["AirPlay", "Companion"], tunnel=True, companion_creds=False)),
+    ("tunnel+companion", default_spec(services=["AirPlay", "Companion"], tunnel=True)),
+    ("tunnel+all-services", default_spec(tunnel=True)),
+    ("unified", default_spec(services=["AirPlay"], unified=True)),
+    ("unified+others", default_spec(services=["MRP", "DMAP", "Companion", "AirPlay"], unified=True)),
+    ("tunnel+unified", default_spec(services=["AirPlay", "Companion"], tunnel=True, unified=True)),
+] + [("only-" + n, default_spec(services=[n])) for n in TEXT_ORDER]
 
 
 def public_members(base):
@@ -123,7 +183,10 @@ def tables():
     from pyatv.protocols import dmap as dmap_mod
     from pyatv.protocols import mrp as mrp_mod
 
-    atv, setups, order = build_world()
+    built = build_world()
+    atv, setups, order = built.atv, native_setups(built), built.order
+    if sorted(p.name for p in setups) != sorted(TEXT_ORDER):
+        raise RuntimeError("native setup() no longer yields one SetupData per protocol")
     protos = sorted(Protocol, key=lambda p: p.value)
     if sorted(p.name for p in protos) != sorted(TEXT_ORDER):
         raise RuntimeError("pyatv.const.Protocol is no longer {MRP, DMAP, Companion, AirPlay, RAOP}: the model must be revised")
@@ -200,6 +263,26 @@ def tables():
 
     def names(xs):
         return sorted((f.name for f in xs), key=lambda n: FeatureName[n].value)
+
+    # every other way instances get registered: the same three per-protocol tables for each
+    # SetupData the configurations in PATH_SPECS yield (tunnelled MRP, RAOP via AirPlay, ...)
+    paths = []
+    for path, spec in PATH_SPECS:
+        for origin, sd in build_world(spec=spec).queue:
+            impls = []
+            for base in routed:
+                inst = sd.interfaces.get(base)
+                for name in public_members(base):
+                    d = defining_class(type(inst), name) if inst is not None else None
+                    if d is not None and d is not base:
+                        impls.append(f"{iface_ident(base)}_{name}")
+            paths.append({
+                "path": path, "origin": origin.name, "proto": sd.protocol.name,
+                "provides": [iface_ident(b) for b in ifaces if b in sd.interfaces],
+                "implements": impls,
+                "features": names(sd.features),
+            })
+    t["paths"] = paths
 
     t["shape"] = {
         "mrpSupported": names(mrp_mod._FEATURES_SUPPORTED),
@@ -290,5 +373,14 @@ def generate():
              "def state0 (p : Proto) (f : Feature) : FState :=\n" + body)
     for k, v in t["shape"].items():
         b.append(f"def {k} : List Feature :=\n  " + fl(v) + "\n")
+    b.append("/-- one SetupData as yielded on some set-up path (tools/gen/c01.py PATH_SPECS) -/\n"
+             "structure PathEntry where\n  path : String\n  origin : Proto\n  proto : Proto\n"
+             "  provides : List Iface\n  implements : List Member\n  features : List Feature\n")
+    rows = []
+    for e in t["paths"]:
+        rows.append(f'  ⟨"{e["path"]}", .{e["origin"].lower()}, .{e["proto"].lower()},\n   {_list(e["provides"])},\n'
+                    f'   {_list(e["implements"])},\n   {fl(e["features"])}⟩')
+    b.append("/-- every SetupData of every extracted set-up path, with the tables of its real instances -/\n"
+             "def setupPaths : List PathEntry := [\n" + ",\n".join(rows) + "]\n")
     b.append("end PyatvModel.Gen.C13\n")
     return {"C01Tables": "\n".join(a), "C13Features": "\n".join(b)}
